@@ -271,7 +271,7 @@ def main(tier, seed):
                      "find_best_fit memoised (deep copies)"],
         technique="explicit-state simulation relation between a run and its re-based twin, exhaustive over finite lattices")
     U.install_fit_memo()
-    mixes = ["H2O_EtOH", "MeOH_DMC", "S2", "S4"] if q else [m for m in U.ALL_MIXTURES]
+    mixes = ["H2O_EtOH", "MeOH_DMC", "S2", "S5"] if q else [m for m in U.ALL_MIXTURES]
     xs = core.lat([0.05, 0.3, 0.6, 0.95], seed) if q else core.lat([0.02, 0.05, 0.1, 0.3, 0.5, 0.7, 0.9, 0.96], seed)
     ts = core.lat([313.15, 353.15], seed) if q else core.lat([293.15, 313.15, 333.15, 353.15, 373.15], seed)
     modes = ["vac", ("T", -60.0), ("p", 0.5)] if q else ["vac", ("T", 120.0), ("T", -60.0), ("T", -20.0), ("p", 0.5), ("p", 5.0)]
